@@ -53,11 +53,23 @@ def outcomeJson : Outcome → List (String × Json)
   | .rpcFailed c => [("outcome", "rpc"), ("code", toJson c)]
   | .timedOut => [("outcome", "timeout")]
   | .noVersions => [("outcome", "noversions")]
+  | .blocked => [("outcome", "blocked")]
 
 def evJson : Ev → Json
   | .sent (.initialize v) => Json.mkObj [("w", "initialize"), ("v", Json.str v)]
   | .sent .initialized => Json.mkObj [("w", "initialized")]
   | .answered => Json.mkObj [("w", "answered")]
+  | .handed => Json.mkObj [("w", "handed")]
+
+/-- what a peer behind an explicit write side can see: the start of the notification's send is
+invisible, its hand-over is the notification -/
+def observableW (t : List Ev) : List Ev :=
+  (t.filter (· ≠ .sent .initialized)).map (fun e => if e = .handed then .sent .initialized else e)
+
+def getWriteSide (j : Json) : Except String WriteSide :=
+  match optField j "take" with
+  | none => pure .never
+  | some v => .accepts <$> v.getNat?
 
 def traceJson (t : List Ev) : Json := Json.arr (t.map evJson).toArray
 
@@ -68,6 +80,18 @@ def handle (j : Json) : Except String Json := do
     let r ← getRequested (← j.getObjVal? "req")
     let rep := handleInitialize Verif.Gen.Versions.supported Verif.Gen.Versions.handlerDefault r
     return Json.mkObj [("answered", Json.str rep.answered), ("recorded", Json.str rep.recorded)]
+  | "serverseq" =>
+    let arr ← j.getObjValAs? (Array Json) "steps"
+    let steps ← arr.toList.mapM (fun st => do
+      let r ← getRequested (← st.getObjVal? "req")
+      let carry := match optField st "carry" with
+        | some c => c.getNat?.toOption
+        | none => none
+      pure ((r, carry) : InitStep))
+    let (os, _) := runInits Verif.Gen.Versions.supported Verif.Gen.Versions.handlerDefault [] steps
+    return Json.mkObj [("steps", Json.arr (os.map (fun (a, rec) =>
+      Json.mkObj [("answered", Json.str a),
+        ("recorded", match rec with | some v => Json.str v | none => Json.null)])).toArray)]
   | "client" =>
     let sup ← getSup j
     let pref ← getPref j
@@ -77,6 +101,12 @@ def handle (j : Json) : Except String Json := do
       | some (v, mode) => Json.mkObj [("v", Json.str v), ("batching", Json.bool mode)]
       | none => Json.null
     return Json.mkObj (outcomeJson o ++ [("trace", traceJson t), ("tracked", trj)])
+  | "clientw" =>
+    let sup ← getSup j
+    let pref ← getPref j
+    let ans ← getAnswer (← j.getObjVal? "ans")
+    let (o, t) := clientInitW sup pref ans (← getWriteSide j)
+    return Json.mkObj (outcomeJson o ++ [("trace", traceJson (observableW t))])
   | "handshake" =>
     let sup ← getSup j
     let pref ← getPref j
